@@ -1,6 +1,104 @@
-import IwModel.Model.Wal
-/-! # C05 — a damaged or cut-off log tail never yields a state that is not a synced prefix -/
+import IwModel.Lemmas.Wal
+/-! # C05 — a damaged or cut-off log tail never yields a state that is not a synced prefix
+
+Property theorems over the executable model `IwModel.Wal` (pre-scan `_last_fix_and_reset_points`,
+roll-forward `_rollforward_exl`, recovery `_recover_wl` of `src/kv/iwal.c`).  The log is any byte
+string `w`; `walk w` lists the records both loops step through in the *uncut* log with their positions. -/
 namespace IwModel.C05
-open IwModel
+open IwModel IwModel.Wal IwModel.Gen.Wal
+
+/-- Every separator's segment ends no later than the next savepoint record ends: the writer closes the
+current segment with every savepoint (`_savepoint_exl`/`_checkpoint_exl` flush right after the mark). -/
+def SegClosed (w : Bytes) : Prop :=
+  ∀ p c l s, (p, Rec.sep c l) ∈ walk w → (s, Rec.savepoint) ∈ walk w → p < s → p + 12 + l ≤ s + 12
+
+/-- The main-file image at the savepoint record at position `f` of log `w` over pre-image `m`: every record
+before `f` applied in order (what a checkpoint taken at that savepoint writes); `f = 0` is the pre-image. -/
+def stateAt (cfg : Cfg) (w m : Bytes) (f : Nat) : Bytes := if f = 0 then m else (replay cfg f w m).main
+
+/-- **A half-written data record is never applied.** Whatever bytes the log holds, a record that either loop
+accepts (savepoint and reset marks carry no data) lies completely inside the file, together with the payload
+or segment body its handler reads. -/
+theorem applied_record_complete (rest : Bytes) (r : Rec) (adv : Nat) (h : parse rest = some (r, adv))
+    (h1 : r ≠ .savepoint) (h2 : r ≠ .reset) :
+    need r adv ≤ rest.length ∧ (body r rest).length = (match r with | .sep _ l => l | .write _ l _ => l | _ => 0) := by
+  have hf := parse_fits h h1 h2
+  refine ⟨hf, ?_⟩
+  have ⟨e1, e2⟩ := parse_adv_eq h
+  cases r with
+  | sep c l => have := e1 c l rfl; simp only [need] at hf; simp only [body, sz_WBSEP, List.length_take, List.length_drop]; omega
+  | write c l o => have := e2 c l o rfl; simp only [need] at hf; simp only [body, sz_WBWRITE, List.length_take, List.length_drop]; omega
+  | _ => rfl
+
+theorem no_savepoint_at_zero (w : Bytes) (hsep : w.headD 0 = WOP_SEP) : (0, Rec.savepoint) ∉ walk w := by
+  unfold walk
+  cases hl : w.length with
+  | zero => simp [walkAux]
+  | succ n =>
+    simp only [walkAux]
+    split
+    · simp
+    · cases hp : parse w with
+      | none => simp
+      | some ra =>
+        obtain ⟨r, adv⟩ := ra
+        simp only [List.mem_cons, Prod.mk.injEq, true_and, not_or]
+        constructor
+        · intro hr
+          subst hr
+          unfold parse at hp
+          simp only [hsep, if_true] at hp
+          split at hp
+          · simp at hp
+          · split at hp <;> simp at hp
+        · intro hm
+          have := walkAux_pos_ge _ _ _ _ _ hm
+          have := parse_adv_pos hp
+          omega
+
+/-- **Lost tail.** Cut a log `w` (starting with a separator, segments closed at savepoints, no reset marks,
+its complete roll-forward over `m` succeeds) at any byte length `n`.  Recovery of the cut log succeeds,
+truncates the log, and leaves the main file in the state of a savepoint `f` of `w` which (1) lies
+completely inside the cut with everything before it, and (2) is not older than any savepoint record that
+survived intact. `f = 0` stands for the pre-image (no savepoint survived). -/
+theorem recover_cut (cfg : Cfg) (w m : Bytes) (n : Nat) (hn : n ≤ w.length)
+    (hsep : w.headD 0 = WOP_SEP) (hclosed : SegClosed w) (hnoreset : ∀ p, (p, Rec.reset) ∉ walk w)
+    (hok : (replay cfg 0 w m).rc = .ok) :
+    ∃ f, (f = 0 ∨ ((f, Rec.savepoint) ∈ walk w ∧ f + 12 ≤ n)) ∧
+      (∀ s, (s, Rec.savepoint) ∈ walk w → s + 12 ≤ n → s ≤ f) ∧
+      recover cfg 1 (w.take n) m = (.ok, stateAt cfg w m f, []) := by
+  have hlen : (w.take n).length = n := by simp; omega
+  have hpre : prescan (w.take n) = prescanAux w.length (w.take n) 0 true 0 0 := by
+    unfold prescan; exact prescanAux_fuel _ _ _ _ _ _ _ (by omega) (by omega)
+  have hrp : (prescanAux w.length (w.take n) 0 true 0 0).2 = 0 :=
+    prescanAux_cut_noreset w.length w n 0 true 0 0 hnoreset
+  refine ⟨(prescanAux w.length (w.take n) 0 true 0 0).1, ?_, ?_, ?_⟩
+  · by_cases h0 : (prescanAux w.length (w.take n) 0 true 0 0).1 = 0
+    · left; exact h0
+    · right; have := prescanAux_cut_found w.length w n 0 true 0 0 hn h0; exact ⟨this.1, by omega⟩
+  · intro s hs hsn
+    exact prescanAux_cut_ge w.length w n 0 true 0 0 s hn (fun _ => hsep) hs (by omega)
+      (fun p c l hp hlt => hclosed p c l s hp hs hlt)
+  · generalize hf : (prescanAux w.length (w.take n) 0 true 0 0).1 = f at *
+    have hpair : prescan (w.take n) = (f, 0) := by rw [hpre]; exact Prod.ext hf hrp
+    unfold recover rollforward stateAt
+    by_cases hemp : (w.take n).isEmpty
+    · have : f = 0 := by
+        have : w.take n = [] := by simpa using hemp
+        rw [this] at hf; cases hw : w.length <;> simp [prescanAux, hw] at hf <;> omega
+      simp [hemp, this]
+    · simp only [hemp, Bool.false_eq_true, if_false, hpair]
+      by_cases h0 : f = 0
+      · simp [h0]
+      · have hcut := replayAux_cut cfg w.length w n 0 true 0 0 m (by rw [hf]; exact h0)
+        rw [hf] at hcut
+        have hrep : replay cfg f (w.take n) m = replay cfg f w m := by
+          unfold replay
+          rw [replayAux_fuel cfg f _ w.length _ _ _ _ (by omega) (by omega)]
+          exact hcut
+        have hrc : (replay cfg f w m).rc = .ok :=
+          replayAux_stop_ok cfg f 0 w.length w 0 true m
+            (fun p hp h => no_savepoint_at_zero w hsep (h ▸ hp)) hok
+        simp [h0, hrep, hrc]
 
 end IwModel.C05
